@@ -270,9 +270,18 @@ func stepDDoc(kind int) {
 			verifReach("final-query")
 			viewMatches(env, res, "replaced function")
 		}
-	case 1: // delete, query (missing), re-create with another function
+	case 1: // delete, query (missing), re-create with another function; another design document stays
+		verifAssert(c.PutDDoc(ctx, "keep", dd(sgbucket.ViewMap{"v": sgbucket.ViewDef{Map: verifMapB}})) == nil, "PutDDoc succeeds")
 		err = c.DeleteDDoc("dd")
 		verifAssert(err == nil, "DeleteDDoc succeeds")
+		_, err = c.GetDDoc("keep")
+		verifAssert(err == nil, "deleting one design document leaves the collection's others alone")
+		verifMapSource(verifMapB)
+		res, err = c.View(ctx, "keep", "v", nil)
+		verifAssert(err == nil, "the other design document's view still answers")
+		if err == nil {
+			viewMatches(env, res, "other design document after the delete")
+		}
 		_, err = c.View(ctx, "dd", "v", nil)
 		verifAssert(err != nil, "a deleted design document's view is gone")
 		verifAssert(c.DeleteDDoc("dd") != nil, "deleting a missing design document is an error")
@@ -309,12 +318,12 @@ func stepDDoc(kind int) {
 		if err == nil {
 			viewMatches(env, res, "first collection after the other's delete")
 		}
-	case 3: // a second view in a second design document, then a write: both indexes catch it
-		err = c.PutDDoc(ctx, "d2", dd(sgbucket.ViewMap{"w": sgbucket.ViewDef{Map: verifMapB}}))
+	case 3: // the same view name in a second design document, then a write: both indexes catch it
+		err = c.PutDDoc(ctx, "d2", dd(sgbucket.ViewMap{"v": sgbucket.ViewDef{Map: verifMapB}}))
 		verifAssert(err == nil, "second PutDDoc succeeds")
 		_ = c.SetRaw(verifKey("key"), 0, nil, verifBytesNonNil("val"))
 		verifMapSource(verifMapB)
-		res, err = c.View(ctx, "d2", "w", nil)
+		res, err = c.View(ctx, "d2", "v", nil)
 		verifAssert(err == nil, "query of the second view succeeds")
 		if err == nil {
 			viewMatches(env, res, "second view")
@@ -333,3 +342,27 @@ func Harness_C12_ddocReplace()         { stepDDoc(0) }
 func Harness_C12_ddocDeleteRecreate()  { stepDDoc(1) }
 func Harness_C12_ddocOtherCollection() { stepDDoc(2) }
 func Harness_C12_ddocTwoViews()        { stepDDoc(3) }
+
+// two views in one design document are separate indexes with separate functions
+func Harness_C12_ddocTwoViewsOneDDoc() {
+	verifSymOnly()
+	env := verifWorld(true, 2, 1)
+	verifCutEvents()
+	c := env.colls[0]
+	ctx := context.Background()
+	err := c.PutDDoc(ctx, "dd", &sgbucket.DesignDoc{Views: sgbucket.ViewMap{"v": sgbucket.ViewDef{Map: verifMapA}, "w": sgbucket.ViewDef{Map: verifMapB}}})
+	verifAssert(err == nil, "PutDDoc succeeds")
+	verifMapSource(verifMapA)
+	res, err := c.View(ctx, "dd", "v", nil)
+	verifAssert(err == nil, "query of the first view succeeds")
+	if err == nil {
+		viewMatches(env, res, "first view of the design document")
+	}
+	verifMapSource(verifMapB)
+	res, err = c.View(ctx, "dd", "w", nil)
+	verifAssert(err == nil, "query of the second view succeeds")
+	if err == nil {
+		verifReach("final-query")
+		viewMatches(env, res, "second view of the design document")
+	}
+}
